@@ -253,6 +253,15 @@ int main(int argc, char** argv) {
         for (uint64_t mp : std::vector<uint64_t>{0, 199}) plan.push_back({"heavy", NL, NH, mp, cyc, 1, 120, "single polygons with 8189, 8190, 8191, 8200 vertices x repetition {none, 2x2} x properties {none, two} x 4 (unit, precision) x 2 tags", {}});
         for (uint64_t mp : std::vector<uint64_t>{8, 5}) plan.push_back({"heavy", NL, 0, mp, cyc, 1, 400, "single polygons with 8200 vertices x repetition {none, 2x2} x properties {none, two} x (unit, precision) in {(1e-6,1e-9),(1,1e-3)}", small});
     }
+    if (!T) {
+        // quick: the >8190-vertex polygons (multi-record XY) unfractured, on one (unit, precision) and tag
+        std::vector<int64_t> few;
+        for (int64_t i = 0; i < NH; i++) {
+            gc::LibSpec sp = gc::spec_of(NL + i);
+            if (sp.elems[0].tag == 0 && sp.libcfg == 0) few.push_back(NL + i);
+        }
+        plan.push_back({"heavy", NL, 0, 0, cyc, 1, 120, "single polygons with 8189, 8190, 8191, 8200 vertices x repetition {none, 2x2} x properties {none, two}, (unit, precision) = (1e-6, 1e-9), max_points 0", few});
+    }
     const char* only = getenv("C01_ONLY");  // debugging aid: run only the sub-searches "sub:max_points" listed, e.g. "heavy:199,pair:0"
     for (auto& s : plan) {
         if (only && !strstr(only, fmt("%s:%llu", s.sub.c_str(), (unsigned long long)s.max_points).c_str())) continue;
